@@ -194,18 +194,6 @@ theorem write_wf {h : Heap} {root l : Loc} {o o' : Obj} {ext : Heap} (wf : WF h)
 
 /-! ### Every edit is such a write (or leaves the heap alone) -/
 
-/-- A step is *local* when the objects it creates reference only objects reachable from the same root
-    (no `Src.ext`). -/
-def srcsLocal : List (String × Src) → Bool
-  | [] => true
-  | (_, .ext _) :: _ => false
-  | _ :: ss => srcsLocal ss
-
-def Step.isLocal (s : Step) : Bool :=
-  match s.edit with
-  | .bindNew _ _ srcs => srcsLocal srcs
-  | _ => true
-
 theorem resolveSrcs_local {h : Heap} {root : Loc} : ∀ (srcs : List (String × Src)) (ss : List (String × Val)),
     srcsLocal srcs = true → resolveSrcs h root srcs = some ss →
     ∀ k c, (k, Val.ref c) ∈ ss → Reach h root c := by
